@@ -1,6 +1,101 @@
-import PV.Lexer.SoftKw
+import PV.C05.Spec
+import PV.C05.Lemmas
 /-
-  C05 — property theorems (under construction).
+  C05 — the token stream tiles the source: property theorems.
+
+  All theorems are about `PV.Lexer.lex cfg mode k src` (= `lexer::lex_starts_at(src, mode, k)` drained up
+  to and including the first error; `PV/Lexer/SoftKw.lean`), for EVERY source `src : List Nat`, start offset
+  `k`, mode and lexer configuration `cfg` (`fullLexer` on or off, arbitrary Unicode tables satisfying
+  `UParams.Sane`).  Helper lemmas: `PV/Lexer/Lemmas.lean` (per-step contract) and `PV/C05/Lemmas.lean`.
 -/
 namespace PV.C05
+open PV.Lexer
+
+/-- an example parameter instantiation (ASCII only) used by the non-vacuity examples -/
+def asciiParams : UParams := ⟨fun _ => false, fun _ => false, fun _ => false⟩
+
+theorem asciiParams_sane : asciiParams.Sane := ⟨by simp [asciiParams], rfl, rfl⟩
+
+/-- `if x:\n  y = 1\n` -/
+def exSrc : List Nat := [105, 102, 32, 120, 58, 10, 32, 32, 121, 32, 61, 32, 49, 10]
+
+/-! ### termination -/
+
+/-- The fuel `length + 1` that `lex` uses always suffices: the stream (tokens up to and including
+    the first error) is finite and the loop never runs out of fuel. -/
+theorem lex_terminates {cfg : Cfg} (hs : cfg.up.Sane) {mode : Mode} {k : Nat} {src : List Nat} {out : LexOut}
+    (h : lex cfg mode k src = some out) : out.fin ≠ .outOfFuel := by
+  unfold lex at h
+  cases hr : lexRaw cfg k src with
+  | none => simp [hr] at h
+  | some o =>
+    simp [hr] at h; subst h
+    exact (lexRaw_spec hs hr).1
+
+example : ∃ out, lex ⟨false, asciiParams⟩ .module 0 exSrc = some out ∧ out.fin = .eof ∧ out.toks.length = 10 := by
+  decide
+
+/-! ### ranges are inside the input, on character boundaries, ordered and disjoint -/
+
+/-- every token range lies inside the input: character span within `[0, |src|]`, byte span within
+    `[k, k + utf8Len src]`, start ≤ end -/
+theorem tokens_in_bounds {cfg : Cfg} (hs : cfg.up.Sane) {mode : Mode} {k : Nat} {src : List Nat} {out : LexOut}
+    (h : lex cfg mode k src = some out) :
+    ∀ t ∈ out.toks, t.cs ≤ t.ce ∧ t.ce ≤ src.length ∧ k ≤ t.bs ∧ t.bs ≤ t.be ∧ t.be ≤ k + utf8Len src := by
+  unfold lex at h
+  cases hr : lexRaw cfg k src with
+  | none => simp [hr] at h
+  | some o =>
+    simp [hr] at h; subst h
+    have R := lexRaw_spec hs hr
+    intro t ht
+    obtain ⟨t', ht', e1, e2, e3, e4⟩ := softKwGo_mem ht
+    have C := R.2.1.mem ht'
+    have B := R.2.2 t' ht'
+    rw [← e1, ← e2, ← e3, ← e4, B.1, B.2]
+    unfold bytePos
+    have := utf8Len_take_mono src C.2.1
+    have := utf8Len_take_le src t'.ce
+    omega
+
+/-- every token boundary is a character boundary of the UTF-8 text: the byte offsets are the
+    prefix sums of the UTF-8 sizes at the token's character indices -/
+theorem tokens_on_boundaries {cfg : Cfg} (hs : cfg.up.Sane) {mode : Mode} {k : Nat} {src : List Nat} {out : LexOut}
+    (h : lex cfg mode k src = some out) :
+    ∀ t ∈ out.toks, t.bs = bytePos k src t.cs ∧ t.be = bytePos k src t.ce ∧
+      OnBoundary src (t.bs - k) ∧ OnBoundary src (t.be - k) := by
+  unfold lex at h
+  cases hr : lexRaw cfg k src with
+  | none => simp [hr] at h
+  | some o =>
+    simp [hr] at h; subst h
+    have R := lexRaw_spec hs hr
+    intro t ht
+    obtain ⟨t', ht', e1, e2, e3, e4⟩ := softKwGo_mem ht
+    have C := R.2.1.mem ht'
+    have B := R.2.2 t' ht'
+    rw [← e1, ← e2, ← e3, ← e4, B.1, B.2]
+    refine ⟨rfl, rfl, ⟨t'.cs, by omega, ?_⟩, ⟨t'.ce, by omega, ?_⟩⟩ <;>
+      simp [bytePos, utf8Len_eq_encode]
+
+/-- tokens come in non-decreasing order and do not overlap (in characters and in bytes) -/
+theorem tokens_ordered_disjoint {cfg : Cfg} (hs : cfg.up.Sane) {mode : Mode} {k : Nat} {src : List Nat}
+    {out : LexOut} (h : lex cfg mode k src = some out) :
+    out.toks.Pairwise (fun a b => a.ce ≤ b.cs ∧ a.be ≤ b.bs) := by
+  have hb := tokens_on_boundaries hs h
+  unfold lex at h
+  cases hr : lexRaw cfg k src with
+  | none => simp [hr] at h
+  | some o =>
+    simp [hr] at h; subst h
+    have R := lexRaw_spec hs hr
+    have P := ((softKwGo_chain (lo := 0) (hi := src.length) o.toks (mode != .expression)).mpr R.2.1).pairwise
+    refine List.Pairwise.imp_of_mem ?_ P
+    intro a b ha hb' hab
+    refine ⟨hab, ?_⟩
+    rw [(hb a ha).2.1, (hb b hb').1]
+    unfold bytePos
+    have := utf8Len_take_mono src hab
+    omega
+
 end PV.C05
